@@ -79,7 +79,8 @@ func TestC10(t *testing.T) {
 					tags++
 				}
 			}
-			st.Record(c, tags > 0 || len(exp.Edges) > 60, append(c.Labels, "accepted-program"))
+			shape := fmt.Sprintf("shape:shared-multi-ref-owner:%d", min(exp.SharedMultiRef, 3))
+			st.Record(c, tags > 0 || len(exp.Edges) > 60, append(c.Labels, "accepted-program", shape))
 			if d := vcase.DiffGraphs(exp.Nodes, exp.Edges, ans.DAG.Nodes, ans.DAG.Edges); d != "" {
 				return "dependency graph differs from what the text implies: " + d
 			}
